@@ -74,7 +74,8 @@ def gen_case(rng):
             toks = [t for t in toks if not (t["t"] == "label" and t["name"] == victim)]
     ncuts = rng.choice([0, 1, 1, 2, 3])
     cuts = sorted(set(rng.randint(1, max(1, len(toks) - 1)) for _ in range(ncuts))) if len(toks) > 1 else []
-    return {"cfg": cfg, "tokens": toks, "cuts": cuts, "allow_undef": allow_undef, "triv": rng.random() < 0.3, "mal": mal}
+    return {"cfg": cfg, "tokens": toks, "cuts": cuts, "allow_undef": allow_undef, "triv": rng.random() < 0.3, "mal": mal,
+            "suffix": rng.choice([None, "_7", "_12"])}
 
 
 def chunks_of(case):
@@ -177,8 +178,10 @@ def check_case(ctx, case, pending):
     except ValueError:
         ctx.count("unrenderable")
         return
-    real = AE.run_real(cfg, texts, allow_undef=case["allow_undef"], triv=case["triv"])
+    real = AE.run_real(cfg, texts, allow_undef=case["allow_undef"], triv=case["triv"], suffix=case.get("suffix"))
     dup, shadows, unknown, late = analyse_names(case, chunks)
+    if case.get("suffix"):
+        ctx.count("with-suffix")
     cls = real["err_class"]
     if cls and cls not in c12.ASSEMBLER_ERRORS:
         ctx.violation("C13:crash:" + cls, "the assembler raised %s (%s); chunks:\n%s" % (cls, (real["err"] or "")[:100], "\n--\n".join(texts)), case)
@@ -201,6 +204,13 @@ def check_case(ctx, case, pending):
             ctx.count("undef-error")
     elif cls in ("UndefSymbolError", "MultipleDefinitionsError"):
         ctx.violation("C13:spurious-" + cls, "%s (%s) although every name is defined once and known; chunks:\n%s" % (cls, (real["err"] or "")[:80], "\n--\n".join(texts)), case)
+    if real["result"] is not None and case.get("suffix"):
+        tp = AE.temp_prefix(cfg)
+        for key, sym in real["keys"].items():
+            is_label = any(t["t"] == "label" and t["name"] == key for t in case["tokens"])
+            want = key + case["suffix"] if (is_label and key.startswith(tp)) else key
+            if sym.name != want:
+                ctx.violation("C13:suffix", "symbol for %s is named %s, expected %s (suffix %s on temporary labels only)" % (key, sym.name, want, case["suffix"]), case)
     if real["result"] is not None:
         ctx.count("assembled")
         result_facts(ctx, case, real, "chunked" if len(chunks) > 1 else "whole")
@@ -221,7 +231,7 @@ def check_case(ctx, case, pending):
         if forward_refs(chunks) or dup or shadows:
             ctx.count("chunking:out-of-scope")
             return
-        whole = AE.run_real(cfg, [whole_text], allow_undef=case["allow_undef"], triv=case["triv"])
+        whole = AE.run_real(cfg, [whole_text], allow_undef=case["allow_undef"], triv=case["triv"], suffix=case.get("suffix"))
         ctx.count("chunking:compared")
         outside = [s for s in section_at_cuts(case) if s != ".text"]
         same = None
